@@ -238,7 +238,10 @@ class BuiltinMixin:
         return st.alloc(HeapObj("list", "list", items=[PyTuple(list(t)) for t in zip(*ls)]))
 
     def bi_map(self, st, a, k):
-        items = self.concrete_items(st, self.force(st, a[1]))
+        src = self.force(st, a[1]) if not st.spec else a[1]
+        items = self.concrete_items(st, src)
+        if items is None and isinstance(src, Z) and src.t.kind == "seq":
+            return self.seq_map_func(st, a[0], src)
         if items is None:
             raise OutsideSubset("map over symbolic data")
         return st.alloc(HeapObj("list", "list", items=[self.call(st, a[0], [x], {}) for x in items]))
@@ -263,7 +266,18 @@ class BuiltinMixin:
 
     def _minmax(self, st, a, k, ismax):
         if len(a) == 1:
-            items = self.concrete_items(st, self.force(st, a[0]))
+            src = self.force(st, a[0]) if not st.spec else a[0]
+            items = self.concrete_items(st, src)
+            if items is None and ismax and isinstance(src, Z) and src.t.kind == "seq" and src.t.args[0].kind == "int" \
+                    and "key" not in k and "py_max" in self.specs:
+                # builtin max over a list = the recursive maximum (spec/builtins.py: py_max), `default` for an empty list
+                if "default" not in k:
+                    if not st.spec and not self.branch(st, z3.Length(src.e) > 0, "max-nonempty"):
+                        raise PyRaise(self.make_exc(st, "ValueError", []))
+                    d = zint(0)
+                else:
+                    d = k["default"]
+                return self.call_spec(st, self.specs["py_max"], [src, zint(z3.Length(src.e)), d], {})
             if items is None:
                 raise OutsideSubset("max/min over symbolic data")
             if not items:
@@ -467,6 +481,11 @@ class BuiltinMixin:
             if meth in ("isupper", "isdigit", "isalpha"):
                 fn = smt.ufunc("str." + meth, Str, Bool)
                 return zbool(fn(s))
+        if kind == "refdict" and meth == "items":
+            # the (key, value) pairs of an open options dict: an unknown list of (str, value) pairs, a function of the dict
+            tt = T("seq", (T("tuple", (T("str"), T("dyn"))),))
+            fn = smt.ufunc("dict_items", Ref, tt.z3sort())
+            return Z(tt, fn(recv.e))
         if kind == "refdict":
             # a dict with a fixed set of modelled keys (class model "dictlike"): d.get("k") reads the optional field k
             key = const_str(args[0]) if args else None
